@@ -88,7 +88,8 @@ RULE = ("cells = model graph x value catalogue; inside a cell every conditioning
         "x {first block as constructor data, constructor without data + every block by set_data} x {keyword order of the graph, "
         "reversed} on ONE live problem; after every step the target is compared with the direct route of the same grouping "
         "(kind of object, parameter names) and with the reference joint log-density (keyword, positional, posterior / "
-        "likelihood / prior accessors, 7 malformed forms on the final target); states there = (graph, 'problem', fixed set), "
+        "likelihood / prior accessors; a deviation that the direct route of the same grouping shows identically is left to the "
+        "direct route's own signature); states there = (graph, 'problem', fixed set), "
         "traces = histories whose every step was compared; non-trivial when a history of >= 2 calls reached a single density")
 BOUND = {
     "quick": "11 graphs (G1-G5,G6a,G6b,G7,G8,G9 with <=4 variables, G10 with 5; dims<=4), 1 value catalogue (seed%3); all ordered "
@@ -160,7 +161,9 @@ ASSUMPTIONS = [
     "is no positional passing mode on this route; set_data on a problem whose target is already a single density (Posterior / "
     "Distribution) is refused by design and accepted as such (an accepted call is judged like any other step); a refusal that "
     "the direct route of the same grouping shares is not judged here (explore() reports it); .posterior on a non-Posterior "
-    "target may refuse; the solver / sampler methods of the class (MAP, ML, sample_posterior, UQ) are not part of C01; the "
+    "target may refuse; malformed / over-specified calls are not repeated on the problem's target (it is the same kind of object "
+    "as the direct route's, where they are enumerated); a deviation from the reference that the direct route of the same grouping "
+    "shows identically is counted, not reported twice; the solver / sampler methods of the class (MAP, ML, sample_posterior, UQ) are not part of C01; the "
     "route is enumerated on catalogue graphs (both tiers) and naming graphs (thorough), not on nested graphs",
 ]
 
@@ -805,15 +808,22 @@ class Explorer:
     # -- BayesianProblem route ---------------------------------------------------------------------
     def direct(self, blocks):
         """What the DIRECT route gives for the same grouping (fresh joint, one keyword conditioning call per block, same
-        keyword order): kind of the reduced object and its parameter names; None when the direct route refuses somewhere
-        (judged by explore())."""
+        keyword order): kind of the reduced object, its parameter names and the outcome of every evaluation the problem
+        route performs; None when the direct route refuses somewhere (judged by explore())."""
         key = tuple(tuple(B) for B in blocks if len(B))
         if key not in self.direct_cache:
             info = None
             try:
                 _o, err = self.replay(tuple(("kw", B) for B in key))
                 if err is None:
-                    info = {"branch": branch_of(_o), "names": list(_o.get_parameter_names())}
+                    names = list(_o.get_parameter_names())
+                    info = {"branch": branch_of(_o), "names": names}
+                    info["kw"] = self.call(_o.logd, **_cp(self.vals, names))
+                    info["pos"] = self.call(_o.logd, *[GR.copy_val(self.vals[n]) for n in names])
+                    if info["branch"] == "Posterior":
+                        info["post"] = info["pos"]
+                        info["lik"] = self.call(_o.likelihood.logd, GR.copy_val(self.vals[names[0]]))
+                        info["prior"] = self.call(_o.prior.logd, GR.copy_val(self.vals[names[0]]))
             except Exception:  # noqa
                 info = None
             self.direct_cache[key] = info
@@ -860,7 +870,7 @@ class Explorer:
             return
         fixed = set(first)
         done = [tuple(first)]
-        ok = self.eval_problem(_bp, fixed, done, history, label, final=not rest)
+        ok = self.eval_problem(_bp, fixed, done, history, label)
         for i, B in enumerate(rest):
             if not ok:
                 return
@@ -885,14 +895,33 @@ class Explorer:
                               % (list(B), type(e).__name__, str(e)[:200]), history)
                 return
             fixed |= set(B)
-            ok = self.eval_problem(_bp, fixed, done, history, label, final=(i == len(rest) - 1))
+            ok = self.eval_problem(_bp, fixed, done, history, label)
         if ok:
             res.traces += 1
             if len(blocks) > 1 and res.sample is None:
                 res.sample = {"graph": self.g.gid, "route": "BayesianProblem", "history": [[m] + list(o) for m, o in history],
                               "final": branch_of(_bp._target), "reference_joint_logd": self.ref}
 
-    def eval_problem(self, _bp, fixed, done, history, label, final):
+    def judge_problem(self, out, ref, d, which, sig, what, history):
+        """One evaluation on the problem route: equals the reference, or deviates exactly like the direct route of the same
+        grouping (then the deviation is the direct route's, reported by explore() under its own signature)."""
+        res = self.res
+        res.evaluations += 1
+        kind, v = out
+        if kind == "ok" and close(v, ref, RTOL):
+            return v
+        dout = d.get(which) if d else None
+        if dout is not None and ((kind != "ok" and dout[0] != "ok") or (kind == "ok" and dout[0] == "ok" and close(v, dout[1], RTOL))):
+            res.count("problem:deviation-shared-with-the-direct-route")
+            return None
+        if kind == "ok":
+            self.fail(sig % "value", "%s = %.15g but the reference is %.15g (diff %.3g)%s" % (what, v, ref, v - ref,
+                      "; the direct route of the same grouping gives %s" % (dout,) if dout else ""), history, impl=v, ref=ref)
+        else:
+            self.fail(sig % "raises", "%s raised / did not return a single number: %s: %s" % (what, type(v).__name__, str(v)[:200]), history)
+        return None
+
+    def eval_problem(self, _bp, fixed, done, history, label):
         """One state of the BayesianProblem route: the problem's target must be the same kind of object over the same
         variables as the direct route gives and evaluate to the reference joint log-density; where the target is a Posterior
         the problem's posterior / likelihood / prior accessors must give log-likelihood + log-prior + fixed contributions."""
@@ -910,9 +939,12 @@ class Explorer:
             return False
         res.count("problem:target=" + bt)
         what = "target of the problem is a %s over %s" % (bt, names)
+        if d is not None and sorted(names) == sorted(d["names"]) and bt == d["branch"] and sorted(names) != sorted(remaining):
+            res.count("problem:deviation-shared-with-the-direct-route")   # wrong variables on both routes: explore() reports it
+            return False
         if sorted(names) != sorted(remaining) or len(set(names)) != len(names):
             self.fail("BayesianProblem|target|wrong-variables,%s" % route, "%s, but the variables not yet fixed are %s%s"
-                      % (what, remaining, " (direct conditioning gives a %s over %s)" % (d["branch"], d["names"]) if d else ""), history)
+                      % (what, remaining, " (direct conditioning in the same steps gives a %s over %s)" % (d["branch"], d["names"]) if d else ""), history)
             return False
         if d is not None and bt != d["branch"]:
             self.fail("BayesianProblem|target|wrong-type,%s" % route, "%s, but conditioning the joint directly in the same steps %s gives a %s over %s"
@@ -920,68 +952,54 @@ class Explorer:
             return False
         if len(history) > 1 and bt in ("Posterior", "Distribution"):
             self.reduced = True
-        nfail0 = len(res.failures)
+        sig = "BayesianProblem|%s|%%s,%s" % ("%s", route)
         out = self.call(_t.logd, **_cp(self.vals, remaining))
-        vkw = self.expect(out, self.ref, "BayesianProblem|target.logd|value,%s" % route, "BayesianProblem|target.logd|raises,%s" % route,
-                          "problem target (%s) logd(keywords)" % bt, history)
+        vkw = self.judge_problem(out, self.ref, d, "kw", sig % "target.logd", "problem target (%s) logd(keywords)" % bt, history)
         if out[0] == "ok":
             res.outcomes.add("%s:problem:%s:%.10g" % (self.g.gid, bt, out[1]))
-        if names:
+        if names and vkw is not None:
             out = self.call(_t.logd, *[GR.copy_val(self.vals[n]) for n in names])
-            res.evaluations += 1
-            if out[0] != "ok":
-                self.fail("BayesianProblem|target.logd|raises-positional,%s" % route, "problem target (%s) logd(positional) raised/ill-shaped: %s"
-                          % (bt, str(out[1])[:200]), history)
-            elif not close(out[1], self.ref, RTOL) and not (vkw is not None and close(out[1], vkw, RTOL)):
-                self.fail("BayesianProblem|target.logd|value-positional,%s" % route, "problem target (%s) logd(positional) = %.15g but reference = %.15g"
-                          % (bt, out[1], self.ref), history, impl=out[1], ref=self.ref)
+            self.judge_problem(out, self.ref, d, "pos", sig % "target.logd-positional", "problem target (%s) logd(positional)" % bt, history)
         # the accessors of the class
+        res.transitions += 1
         try:
             _p = _bp.posterior
             perr = None
         except Exception as e:  # noqa
             _p, perr = None, e
-        res.transitions += 1
         res.outcomes.add("problem:posterior-accessor:%s:%s" % (bt, "returned" if perr is None else "refused"))
         if bt == "Posterior":
             x = names[0]
             if perr is not None:
                 self.fail("BayesianProblem|posterior|refused,%s" % route, "the target is a Posterior over %s but problem.posterior raised %s: %s"
                           % (x, type(perr).__name__, str(perr)[:200]), history)
-            else:
-                out = self.call(_p.logd, GR.copy_val(self.vals[x]))
-                self.expect(out, self.ref, "BayesianProblem|posterior.logd|value,%s" % route, "BayesianProblem|posterior.logd|raises,%s" % route,
-                            "problem.posterior.logd", history)
-                try:
-                    _lk, _pr = _bp.likelihood, _bp.prior
-                    lname = _lk.name
-                except Exception as e:  # noqa
-                    self.fail("BayesianProblem|likelihood-prior|refused,%s" % route, "problem.likelihood / problem.prior raised %r" % (e,), history)
-                    _lk = None
-                if _lk is not None and lname in self.reffac and lname != x:
-                    o1 = self.call(_lk.logd, GR.copy_val(self.vals[x]))
-                    a1 = self.expect(o1, self.reffac[lname], "BayesianProblem|likelihood.logd|value,%s" % route,
-                                     "BayesianProblem|likelihood.logd|raises,%s" % route, "problem.likelihood[%s].logd" % lname, history)
-                    o2 = self.call(_pr.logd, GR.copy_val(self.vals[x]))
-                    a2 = self.expect(o2, self.reffac[x], "BayesianProblem|prior.logd|value,%s" % route,
-                                     "BayesianProblem|prior.logd|raises,%s" % route, "problem.prior.logd", history)
-                    fixed_contrib = sum(self.reffac[n] for n in self.reffac if n not in (x, lname))
-                    res.evaluations += 1
-                    res.count("problem:view=Posterior")
-                    if a1 is not None and a2 is not None and vkw is not None and len(res.failures) == nfail0 \
-                            and not close(vkw, a1 + a2 + fixed_contrib, RTOL):
-                        self.fail("BayesianProblem|posterior.logd|decomposition,%s" % route, "logd %.15g != loglik %.15g + logprior %.15g + "
-                                  "fixed contributions %.15g" % (vkw, a1, a2, fixed_contrib), history)
-                elif _lk is not None:
-                    self.fail("BayesianProblem|likelihood|wrong-variable,%s" % route, "problem.likelihood is named %r, not one of the "
-                              "fixed variables of the graph" % (lname,), history)
+                return True
+            out = self.call(_p.logd, GR.copy_val(self.vals[x]))
+            self.judge_problem(out, self.ref, d, "post", sig % "posterior.logd", "problem.posterior.logd", history)
+            try:
+                _lk, _pr = _bp.likelihood, _bp.prior
+                lname = _lk.name
+            except Exception as e:  # noqa
+                self.fail("BayesianProblem|likelihood-prior|refused,%s" % route, "problem.likelihood / problem.prior raised %r" % (e,), history)
+                return True
+            if lname not in self.reffac or lname == x:
+                self.fail("BayesianProblem|likelihood|wrong-variable,%s" % route, "problem.likelihood is named %r, not one of the "
+                          "fixed variables of the graph" % (lname,), history)
+                return True
+            a1 = self.judge_problem(self.call(_lk.logd, GR.copy_val(self.vals[x])), self.reffac[lname], d, "lik", sig % "likelihood.logd",
+                                    "problem.likelihood[%s].logd" % lname, history)
+            a2 = self.judge_problem(self.call(_pr.logd, GR.copy_val(self.vals[x])), self.reffac[x], d, "prior", sig % "prior.logd",
+                                    "problem.prior.logd", history)
+            fixed_contrib = sum(self.reffac[n] for n in self.reffac if n not in (x, lname))
+            res.evaluations += 1
+            res.count("problem:view=Posterior")
+            if a1 is not None and a2 is not None and vkw is not None and not close(vkw, a1 + a2 + fixed_contrib, RTOL):
+                self.fail("BayesianProblem|posterior.logd|decomposition,%s" % route, "logd %.15g != loglik %.15g + logprior %.15g + "
+                          "fixed contributions %.15g" % (vkw, a1, a2, fixed_contrib), history)
         elif perr is None and remaining:
             # the accessor may refuse (the target is not a Posterior); an object that is handed out must be the target's density
             out = self.call(_p.logd, **_cp(self.vals, remaining))
-            self.expect(out, self.ref, "BayesianProblem|posterior.logd|value,%s" % route, "BayesianProblem|posterior.logd|raises,%s" % route,
-                        "problem.posterior (target is a %s) logd" % bt, history)
-        if final:
-            self.malformed(_t.logd, names, "BayesianProblem:" + bt, history)
+            self.judge_problem(out, self.ref, d, "kw", sig % "posterior.logd", "problem.posterior (target is a %s) logd" % bt, history)
         return True
 
     # -- differential oracle ---------------------------------------------------------------------
